@@ -41,7 +41,7 @@ KINDS = ["good", "good", "const", "const", "invert", "invert", "memoweak", "memo
 def budget(tier):
     if tier == "quick":
         return {"examples": 480, "shards": 16, "time_s": 75}
-    return {"examples": 3200, "shards": 16, "time_s": 1200}
+    return {"examples": 16000, "shards": 16, "time_s": 1500}
 
 
 @st.composite
